@@ -18,7 +18,9 @@
 EXTENDS Integers, Sequences, FiniteSets, TLC
 
 Answers(s) == s.kind # "silence" /\ s.at <= s.budget + 1
-ExpectOK(s) == s.kind \in {"ok", "vsaok"} /\ Answers(s)
+ExpectOK(s) == s.kind \in {"ok", "vsaok", "relayok"} /\ Answers(s)
+\* CERs seen when the peer answers: the at-th; with `during`, the answer arrives while the next one is being written
+NCer(s) == IF s.during THEN s.at + 1 ELSE s.at
 ErrClasses(s) ==
   CASE ~Answers(s) /\ s.kind # "eof" -> {"timeout"}
     [] s.kind = "fail"                -> {"failed"}
@@ -34,7 +36,7 @@ Reasons(s, o, want) ==
   IF s.cfg # "" /\ ~o.dial_ok /\ o.ncer = 0 THEN <<>>
   ELSE
      (IF o.ncer > s.budget + 1 \/ o.ncer < 1 THEN <<"too-many-cer">> ELSE <<>>)
-  \o (IF Answers(s) /\ s.kind # "eof" /\ o.ncer # s.at THEN <<"cer-count">> ELSE <<>>)
+  \o (IF Answers(s) /\ s.kind # "eof" /\ o.ncer # NCer(s) THEN <<"cer-count">> ELSE <<>>)
   \o (IF ~Answers(s) /\ s.kind # "eof" /\ o.ncer # s.budget + 1 THEN <<"cer-count">> ELSE <<>>)
   \o (IF s.kind = "eof" /\ o.ncer < (IF s.at <= s.budget + 1 THEN s.at ELSE s.budget + 1) THEN <<"cer-count">> ELSE <<>>)
   \o (IF ~o.identical THEN <<"cer-differs">> ELSE <<>>)
